@@ -661,8 +661,8 @@ impl Check for C05 {
     }
     fn generate(r: &mut Rng, tier: Tier) -> Case {
         let mut c = gen::draw_cfg(r, tier);
-        c.max_extra_nodes = c.max_extra_nodes.min(if c.large { 12 } else { 4 });
-        c.max_edges = c.max_edges.min(if c.large { 8 } else { 3 });
+        c.max_extra_nodes = c.max_extra_nodes.min(if c.huge { 140 } else if c.large { 12 } else { 4 });
+        c.max_edges = c.max_edges.min(if c.huge { 70 } else if c.large { 8 } else { 3 });
         let seeds: Vec<Plain> = (0..r.range(1, 3)).map(|_| gen::gen_plain(r, &c, None)).collect();
         // most runs are short; some go deep (up to 40 operations)
         let max = if tier == Tier::Thorough { 40 } else { 30 };
@@ -680,6 +680,7 @@ impl Check for C05 {
         fp.add(crate::rng::hash_str(&format!("{:?}{:?}{:?}", c.ops, c.spec, c.raw)));
         ex.workload_fp = fp.0;
         ex.nontrivial = !c.ops.is_empty() && c.seeds.iter().any(|p| p.n() > 0);
+        ex.probe_if(c.seeds.iter().any(|p| p.n() >= 64 || p.m() >= 64), "size_64_or_more");
         ex.probe_if(c.raw.what != "no datum flipped", "corruptions_tried");
 
         ex.seg_control();
